@@ -657,7 +657,8 @@ def task_volume(ctx, n, depth):
 
 def tasks(tier):
     from .. import depth
-    return _tasks(tier) + [("little-stack", depth.task, dict(prop=PROPERTY))]
+    from .. import mixed_tables
+    return _tasks(tier) + [("little-stack", depth.task, dict(prop=PROPERTY)), ("mixed-tables", mixed_tables.task, dict(prop=PROPERTY))]
 
 
 def _tasks(tier):
@@ -691,6 +692,9 @@ EXHAUSTIVE_NOTE = ("the single-atom default is swept over every element, isotope
 
 
 def replay(ctx, case):
+    if isinstance(case, dict) and case.get("kind") == "mixed-tables":
+        from .. import mixed_tables
+        return mixed_tables.check(ctx, case["property"])
     if isinstance(case, dict) and case.get("kind") == "little-stack":
         from .. import depth
         return depth.check(ctx, case)
